@@ -3,8 +3,8 @@
    respect to the single-flag interpreter [gexec_block] (which equals the
    reference's block-local flag under the guard: Proofs/C01Flags.v), GIVEN the
    simulation of the block-free statements they contain. *)
-From V Require Import Lang.RefSem Lang.Codegen Lang.Vm Lang.Observe Lang.Wt Proofs.C01Sim Proofs.C01Expr
-  Proofs.C01Store Proofs.C01Gen Proofs.C01Cases Proofs.C01Flags.
+From V Require Import Lang.RefSem Lang.Codegen Lang.Vm Lang.Observe Lang.Wt Proofs.C01Sim Proofs.C01Expr Proofs.C01Flags.
+From V Require Import Proofs.C01Store Proofs.C01Gen Proofs.C01Cases.
 From Coq Require Import Lia.
 Local Open Scope Z_scope.
 
@@ -228,6 +228,91 @@ Proof.
         replace (pc + 1 + 1 + 1)%nat with (pc + 3)%nat by lia. exact Hat. }
     + replace (pc + 1 + 1 + 1)%nat with (pc + 3)%nat by lia. fold ct. lia.
     + replace (pc + 1 + 1 + 1)%nat with (pc + 3)%nat by lia. fold ct. lia.
+Qed.
+
+
+(* ---- conditional with else ---- *)
+Lemma run_post_jmp L L' p0 stk g ms tm vs r :
+  run_post L p0 stk g ms tm vs r ->
+  nth_error (o_prog o) (p0 + L) = Some (ins Jmp (OInt (zl (p0 + L')))) -> (L + 1 <= L')%nat ->
+  run_post L' p0 stk g ms tm vs r.
+Proof.
+  intros H Hj Hl. destruct r as [g' rs'|[|x] rs']; cbn [run_post] in *.
+  - destruct H as (stk' & ms' & tm' & vs' & n & Hn & Hst & Hr).
+    exists stk', ms', tm', vs', (n + 1)%nat. split; [lia|]. split; [|exact Hr].
+    eapply nsteps_snoc; [exact Hst|]. apply step_jmp. exact Hj.
+  - destruct H as (n & t1 & vs' & Hn & Hx). exists n, t1, vs'. split; [lia|]. exact Hx.
+  - destruct H as (n & t1 & e' & vs' & Hn & Hx). exists n, t1, e', vs'. split; [lia|]. exact Hx.
+Qed.
+
+Lemma gexec_condelse' c th el g rs :
+  gexec_stmt (SCondElse c th el) g rs =
+  rbind (eval c rs) (fun v s1 =>
+    if truthy E v then rbind (gexec_block th false s1) (fun _ s2 => ROk true s2) else gexec_block el g s1).
+Proof. reflexivity. Qed.
+
+Lemma cstmt_condelse pc c th el :
+  cstmt pc (SCondElse c th el) =
+  let lc := length (cexpr pc c) in
+  let ct := cblock (pc + lc + 2) th in
+  let lelse := (pc + lc + 2 + length ct + 2)%nat in
+  let ce := cblock lelse el in
+  cexpr pc c ++ [ins Jnm (OInt (zl lelse)); ins Setmatched (OBool false)] ++ ct ++
+  [ins Setmatched (OBool true); ins Jmp (OInt (zl (lelse + length ce)))] ++ ce.
+Proof. reflexivity. Qed.
+
+Lemma ssim_condelse c th el :
+  cond_ok decls (o_strs o) (o_nre o) c = true -> bsim th -> bsim el -> ssim (SCondElse c th el).
+Proof.
+  intros Hc IHt IHe pc stk g ms tm rs vs Hat Hrel. rewrite gexec_condelse'. rewrite cstmt_condelse in *. cbn zeta in *.
+  set (lc := length (cexpr pc c)) in *. set (ct := cblock (pc + lc + 2) th) in *.
+  set (lelse := (pc + lc + 2 + length ct + 2)%nat) in *. set (ce := cblock lelse el) in *.
+  assert (Hlen : length (cexpr pc c ++ [ins Jnm (OInt (zl lelse)); ins Setmatched (OBool false)] ++ ct ++
+                         [ins Setmatched (OBool true); ins Jmp (OInt (zl (lelse + length ce)))] ++ ce)
+                 = (lc + (length ct + 4 + length ce))%nat).
+  { rewrite !app_length. cbn [length]. fold lc. lia. }
+  rewrite Hlen.
+  apply at_pc_app in Hat as [Hat1 Hat2]. fold lc in Hat2.
+  pose proof (cond_sim c Hc pc stk g ms tm rs vs Hat1 Hrel) as Hcs. fold lc in Hcs.
+  destruct (eval c rs) as [v rs1|[|x] rs1]; cbn [RefSem.bind]; [| contradiction | ].
+  2:{ destruct Hcs as (n & t1 & e' & vs' & Hn & Hst & Hx). exists n, t1, e', vs'. split; [lia|]. auto. }
+  destruct Hcs as (w & ms1 & vs1 & n & Htw & Hn & Hst & Hrel1).
+  pose proof (at_pc_head _ _ _ _ Hat2) as HJ. apply at_pc_S in Hat2.
+  (* the rest: setmatched false :: ct ++ [setmatched true; jmp] ++ ce *)
+  change (ins Setmatched (OBool false) :: ct ++ [ins Setmatched (OBool true); ins Jmp (OInt (zl (lelse + length ce)))] ++ ce)
+    with ((ins Setmatched (OBool false) :: ct) ++ [ins Setmatched (OBool true); ins Jmp (OInt (zl (lelse + length ce)))] ++ ce) in Hat2.
+  apply at_pc_app in Hat2 as [HatA HatB]. cbn [length] in HatB.
+  apply at_pc_app in HatB as [HatB HatC]. cbn [length] in HatC.
+  destruct (truthy E v) eqn:Htr.
+  - (* then-branch, then jump over the else block *)
+    assert (Hst1 : nsteps (n + 1) (mkthread pc stk g ms tm) vs = Some (mkthread (pc + lc + 1) stk g ms1 tm, vs1)).
+    { eapply nsteps_snoc; [exact Hst|]. rewrite Nat.add_1_r.
+      eapply jump_not_taken with (jm := false); [exact Htw | reflexivity | exact HJ]. }
+    eapply run_post_shift with (len1 := (length ct + 3 + length ce)%nat); [exact Hst1 | lia | lia | ].
+    eapply run_post_jmp with (L := (length ct + 2)%nat).
+    + replace (length ct) with (length (cblock (pc + lc + 1 + 1) th)) by (unfold ct; f_equal; f_equal; lia).
+      apply then_block; [exact IHt | | exact Hrel1].
+      replace (pc + lc + 1 + 1)%nat with (pc + lc + 2)%nat by lia. fold ct.
+      intros k i Hk. destruct (Nat.lt_ge_cases k (S (length ct))) as [Hlt | Hge].
+      * apply HatA. change (ins Setmatched (OBool false) :: ct ++ [ins Setmatched (OBool true)])
+          with ((ins Setmatched (OBool false) :: ct) ++ [ins Setmatched (OBool true)]) in Hk.
+        rewrite nth_error_app1 in Hk by (cbn; lia). exact Hk.
+      * change (ins Setmatched (OBool false) :: ct ++ [ins Setmatched (OBool true)])
+          with ((ins Setmatched (OBool false) :: ct) ++ [ins Setmatched (OBool true)]) in Hk.
+        rewrite nth_error_app2 in Hk by (cbn; lia). cbn [length] in Hk.
+        destruct (k - S (length ct))%nat eqn:Hd; [|destruct n0; discriminate]. cbn in Hk.
+        replace (pc + lc + 1 + k)%nat with (pc + lc + 1 + S (length ct) + 0)%nat by lia.
+        apply HatB. exact Hk.
+    + replace (pc + lc + 1 + (length ct + 2))%nat with (pc + lc + 1 + S (length ct) + 1)%nat by lia.
+      replace (pc + lc + 1 + (length ct + 3 + length ce))%nat with (lelse + length ce)%nat by (unfold lelse; lia).
+      apply (HatB 1%nat). reflexivity.
+    + lia.
+  - (* else-branch: jump to lelse *)
+    assert (Hst1 : nsteps (n + 1) (mkthread pc stk g ms tm) vs = Some (mkthread lelse stk g ms1 tm, vs1)).
+    { eapply nsteps_snoc; [exact Hst|]. eapply jump_taken with (jm := false); [exact Htw | reflexivity | exact HJ]. }
+    eapply run_post_shift with (len1 := length ce); [exact Hst1 | lia | unfold lelse; lia | ].
+    apply IHe; [|exact Hrel1].
+    replace (pc + lc + 1 + S (length ct) + 2)%nat with lelse in HatC by (unfold lelse; lia). exact HatC.
 Qed.
 
 (* ---- the skeleton theorem: else-free blocks ---- *)
